@@ -96,4 +96,11 @@ def main():
 
 
 if __name__ == "__main__":
-    main()
+    try:
+        main()
+    except Unsupported as e:            # fail closed, with one clean line for the obligation's detail
+        sys.stdout.write("Unsupported: %s\n" % e)
+        sys.exit(2)
+    except Exception as e:         # anything unforeseen is also a refusal, never a silent pass
+        sys.stdout.write("Unsupported: %s: %s\n" % (type(e).__name__, e))
+        sys.exit(2)
